@@ -19,7 +19,7 @@ RULE = ("valid-by-construction derivations of the RFC 9535 grammar (AST-first sa
         "member-name shorthand (quick: block boundaries + sample; thorough: all). A compile() failure is confirmed against the strict "
         "Earley recogniser + well-typedness + integer range before it is reported (a generator slip is an internal error, not a verdict); "
         "1 in 8 accepted strings is also recognised as a self-check. A long-sweep compiles 38 flat repetition forms (dotted / bracket / descendant chains, selector lists, && / || chains, long embedded queries and function arguments, long literals, names and blank runs) at 100 to 1000 (thorough: 3000) repetitions; each form's validity is confirmed by the recogniser on its 3-fold instance. Non-trivial: the rendering used at least one optional lexical "
-        "alternative; distinct by string. Concurrent part: 3 to 8 threads compile valid queries (random ones and five nesting forms - parentheses, !( ), filter in filter, ( && ), bracketed selection in a function argument - at 10 to 200 levels) on the default environment at the same moment with GIL hand-offs injected on package lines; every query that compiled alone in a thread must compile concurrently to the same str().")
+        "alternative; distinct by string. Concurrent part: 3 to 8 threads compile valid queries (random ones and five nesting forms - parentheses, !( ), filter in filter, ( && ), bracketed selection in a function argument - at 10 to 200 levels) on the default environment at the same moment with GIL hand-offs injected on package lines; the threads also compile truncated (invalid) nestings in between, which fail part-way and assert nothing; every query that compiled alone in a thread must compile concurrently to the same str().")
 ASSUMPTIONS = ["strict ABNF transcription in vf/oracle/abnf.py (lark Earley) and vf/oracle/typing.py define validity",
                "numbers restricted to exactly representable values (|int| <= 2^53-1, finite floats)"]
 DECIDING_MONITORS = ["M-compile"]
@@ -372,6 +372,11 @@ def thread_part(jp, rec, R, spec):
                 mine.append(("nest:" + form[0], nested(form, R.choice([10, 30, 60, 100, 150, 200]))))
             for _ in range(3):
                 mine.append(("random", G.render(gen.query(root="$"), R)))
+            for _ in range(2):
+                # noise: compiles that FAIL part-way (unclosed nesting) between the valid ones; they assert nothing themselves
+                form = R.choice(NEST_FORMS)
+                t = nested(form, R.choice([5, 40, 120]))
+                mine.append(("noise-invalid", t[:len(t) - R.randint(1, max(1, len(t) // 3))]))
             R.shuffle(mine)
             texts.append(mine)
         solo = {}
